@@ -441,7 +441,9 @@ META = {
                "filters": "library enums (8 bit) and user-defined 16- and 24-bit enums; every flag combination (symbolic); "
                           "DTR0/1/2 contents before the sequence symbolic",
                "schemes": "the five members, plain ints 0..4, invalid ints / None / str",
-               "faults": "one silence or framing error at any step"},
+               "faults": "one silence or framing error at any step",
+               "discovery scan, BOUNDED stand-in next to the loop rule": "one device (address 0) with <= 3 instances and two "
+               "devices (62, 63) with <= 1, both loops unrolled, every answer kind; not counted as proved"},
     "assumptions": [
         "ASSUMED unit contract contracts/units/device103.py (event filter = DTR2:DTR1:DTR0 truncated to the instance type's "
         "width; MSB-aligned input value with unspecified padding bits)",
